@@ -1170,6 +1170,16 @@ class SymArr(np.ndarray):
       return bool(self.item())
     raise ValueError('truth value of an array with more than one element is ambiguous')
 
+  def mean(self, axis=None, **k):
+    # mean over an empty axis: numpy gives nan (with a warning); python ints would raise ZeroDivisionError
+    n = self.size if axis is None else self.shape[axis]
+    if n == 0:
+      shape = () if axis is None else tuple(s for i, s in enumerate(self.shape) if i != (axis % self.ndim))
+      out = np.empty(shape, dtype=object)
+      out.fill(NAN)
+      return out.view(SymArr) if shape else NAN
+    return np.ndarray.sum(self, axis=axis) / np.float64(n)
+
 
 def trunc_to_int(v):
   """C cast double -> integer: truncation toward zero"""
